@@ -3,7 +3,7 @@ from fractions import Fraction
 
 from harness import coqio as cq
 from harness import thr_common as tc
-from harness.common import CONFIGS, F, enc, fl, score_list
+from harness.common import CONFIGS, F, enc, fl, score_list, pick_dtype
 
 ID = "C07"
 PROPS_FILE = "Props/C07.v"
@@ -49,7 +49,8 @@ def gen_cases(rng, tier):
         hi = Fraction(rng.randint(int(lo * 16), 16), 16)
         mid = Fraction(rng.randint(int(lo * 16), int(hi * 16)), 16)
         cases.append({"pos": [enc(x) for x in pos], "neg": [enc(x) for x in neg], "ep": ep, "en": en, "sc": sc, "ec": ec,
-                      "lower": enc(lo), "upper": enc(hi), "mid": enc(mid), "exact": exact})
+                      "lower": enc(lo), "upper": enc(hi), "mid": enc(mid), "exact": exact,
+                      "dtype": pick_dtype(rng, pos + neg)})
     return cases
 
 
@@ -64,6 +65,8 @@ def run_impl(case):
            "compl_y": enc(float(s.auc(lower=lo, upper=hi, y_axis="fnr"))),
            "mirror_x": enc(float(s.auc(lower=1 - hi, upper=1 - lo, x_axis="tnr"))),
            "swap_axes": enc(float(s.auc(x_axis="tpr", y_axis="fpr")))}
+    out["full_again"] = enc(float(s.auc()))      # a history of calls on one object must not change the answers
+    out["win_again"] = enc(float(s.auc(lower=lo, upper=hi)))
     return out
 
 
@@ -132,6 +135,8 @@ def oracle(case, res):
     mw = _mann_whitney(case)
     if abs(F(r["full"]) - mw) > tol:
         fails.append((f"C07/mann-whitney/{cfg}", f"full AUC {r['full']} but Mann-Whitney statistic (ties 1/2, easy samples beyond) is {mw}"))
+    if r.get("full_again", r["full"]) != r["full"] or r.get("win_again", r["win"]) != r["win"]:
+        fails.append((f"C07/repeat/{cfg}", f"repeating auc() on the same object changed the result: {r['full']} -> {r.get('full_again')}, {r['win']} -> {r.get('win_again')}"))
     if abs(F(r["swap_axes"]) - (1 - F(r["full"]))) > tol:
         fails.append((f"C07/swap-axes/{cfg}", f"AUC with exchanged axes {r['swap_axes']} != 1 - {r['full']}"))
     if abs(F(r["compl_y"]) - ((hi - lo) - F(r["win"]))) > tol:
